@@ -820,6 +820,21 @@ def enum_case(ctx, case):
                          {'enum': cls.__qualname__, 'value': v,
                           'members': case.get('members')}, got, has)
             ctx.nt('enum', cls.__qualname__, v, repr(case.get('members')))
+        # any value can be asked for (repr() of a packet asks for whatever
+        # the field holds): one that cannot be hashed simply has no name
+        for v in ([1], [], {}, bytearray(b'a'), {1}, [[0]]):
+            ctx.ev()
+            try:
+                got = cls.name_from_value(v)
+            except Exception as e:
+                ctx.fail('enum', 'E-name-from-value-raises',
+                         {'enum': cls.__qualname__, 'value': repr(v),
+                          'members': case.get('members')}, exc=e)
+                break
+            if got is not None and mem.get(got) != v:
+                ctx.fail('enum', 'E-name-from-value',
+                         {'enum': cls.__qualname__, 'value': repr(v),
+                          'members': case.get('members')}, got, None)
 
 
 COMPONENTS = {'playerlist': playerlist_case, 'maps': maps_case,
